@@ -19,6 +19,11 @@ type outcome struct {
 
 const caseTimeout = 5 * time.Second
 
+// hangConfirm is how long a case may run alone before it is called a hang.
+const hangConfirm = 60 * time.Second
+
+var slowReruns int
+
 // runSession executes the cases in order in one fresh child process. After a
 // hang or crash the remaining cases run in another fresh child (they are
 // marked so, because their process history differs).
@@ -35,6 +40,26 @@ func runSession(tw *toolWorld, cases []tooldriver.Case, timeout time.Duration) [
 		line, st, detail := w.call(&cases[i], timeout)
 		switch st {
 		case callTimeout:
+			// a slow case under load is not a hang: run it again, alone in a fresh
+			// process, with a generous limit, before calling it one
+			if timeout < hangConfirm {
+				w2 := &worker{bin: tw.bin, env: goEnv()}
+				line2, st2, detail2 := w2.call(&cases[i], hangConfirm)
+				if w2.cmd != nil {
+					w2.in.Close()
+					w2.kill()
+				}
+				if st2 == callOK {
+					var res tooldriver.Result
+					if err := json.Unmarshal(line2, &res); err != nil {
+						fatalHarness("bad child response: %v: %.200s", err, line2)
+					}
+					out[i] = outcome{Status: "ok", Res: &res, Detail: "slow: completed when re-run alone"}
+					slowReruns++
+					continue
+				}
+				detail = detail2
+			}
 			out[i] = outcome{Status: "hang", Detail: tail(detail, 600)}
 			continue
 		case callCrashed:
